@@ -1242,11 +1242,11 @@ Section Shape.
   Qed.
   (** operation_done by the combiner *)
   Definition done_if (l : sview) (q : nat) : sview :=
-    match w_my l with Some r => if Nat.eqb r q then set_done l true else l | None => l end.
+    match w_my l with Some r => if Nat.eqb r q then set_tgt (set_done l true) None else l | None => l end.
 
   Lemma done_if_same l q : w_my (done_if l q) = w_my l /\ w_own (done_if l q) = w_own l /\ w_hold (done_if l q) = w_hold l /\
     w_deact (done_if l q) = w_deact l /\ w_link (done_if l q) = w_link l /\ w_cur (done_if l q) = w_cur l /\
-    w_tgt (done_if l q) = w_tgt l /\ w_pp (done_if l q) = w_pp l /\ w_nx (done_if l q) = w_nx l /\
+    (w_tgt (done_if l q) = w_tgt l \/ w_tgt (done_if l q) = None) /\ w_pp (done_if l q) = w_pp l /\ w_nx (done_if l q) = w_nx l /\
     w_cand (done_if l q) = w_cand l /\ w_vic (done_if l q) = w_vic l /\ w_mynx (done_if l q) = w_mynx l /\
     w_wait (done_if l q) = w_wait l.
   Proof. unfold done_if. destruct (w_my l) as [r|] eqn:E; [destruct (Nat.eqb r q)|]; cbn; rewrite ?E; repeat split; auto. Qed.
@@ -1275,7 +1275,7 @@ Section Shape.
     - assert (HG1 : Glob g' a) by (apply Glob_same_lists with (g := g); auto; intros x; destruct (Hx x) as (A & B & _); auto).
       assert (HG2 : Glob g' (setv a t (done_if l q))) by (apply Glob_setv; auto; try congruence; intros r0 Hd _ _; congruence).
       destruct HG2. split; auto.
-    - destruct K0. split; cbn [s_pl setv setpl]; rewrite ?D1, ?D2, ?D3, ?D4, ?D5, ?D6, ?D7, ?D8, ?D9, ?D10, ?D11, ?D12, ?D13; auto.
+    - destruct K0. split; cbn [s_pl setv setpl]; rewrite ?D1, ?D2, ?D3, ?D4, ?D5, ?D6, ?D8, ?D9, ?D10, ?D11, ?D12, ?D13; auto.
       + intros Ho r0 H0. destruct (Hx r0) as (_ & B & _). rewrite B. auto.
       + intros p Hp Ho r0 H0. destruct (Hx r0) as (A & _). rewrite A. eauto.
       + intros Hw r0 H0. destruct (Nat.eq_dec r0 q) as [->|Hq]; [destruct (Hx q) as (_ & _ & _ & E); rewrite E; unfold req_Response, req_Empty; lia|].
@@ -1284,18 +1284,20 @@ Section Shape.
         destruct (Hx r0) as (_ & _ & E & _). rewrite (E Hq). apply k_done0; [|exact H0].
         unfold done_if in Hw. rewrite H0 in Hw. destruct (Nat.eqb_spec r0 q); [contradiction|exact Hw].
       + intros Hk. destruct (k_link0 Hk) as [A B]. split; auto. intros r0 H0. destruct (Hx r0) as (_ & E & _). rewrite E. auto.
+      + intros q0 Hq0. destruct (k_cur0 q0 Hq0) as (A & B & D & F). repeat split; auto.
+        intros v Hv'. destruct D7 as [E|E]; rewrite E in Hv'; [auto|discriminate].
       + intros r0 n Hn. destruct (k_nx0 r0 n Hn) as (A & B & D). destruct (Hx r0) as (E & _). rewrite E. auto.
       + intros r0 Hd. destruct (k_deact0 r0 Hd) as (A & B & B' & D). split; auto. split; auto. split; auto.
         intros t0 Ht0. cbn in Ht0. unfold upd in *. cbn. unfold upd. destruct (Hx r0) as (_ & E & _). rewrite E.
         destruct (Nat.eqb_spec t0 t) as [E2|E2]; [rewrite D2; rewrite <- Hv; apply D; rewrite Hv; congruence|apply D; exact Ht0].
       + intros x Hc. destruct (k_cand0 x Hc) as (A & B). split; [apply Hun; exact A|exact B].
       + intros x Hc. destruct (k_vic0 x Hc) as (A & B). split; [apply Hun; exact A|exact B].
-      + intros v Hc. destruct (k_tgt0 v Hc) as [A|[A B]]; [left; exact A|right; split; [apply Hun; exact A|exact B]].
+      + intros v Hc. destruct D7 as [E|E]; rewrite E in Hc; [|discriminate]. destruct (k_tgt0 v Hc) as [A|[A B]]; [left; exact A|right; split; [apply Hun; exact A|exact B]].
   Qed.
   (** the requester reads its request word *)
   Lemma safe_ld_req_own_b R t r (k : V -> prog R) l Q :
     w_my l = Some r -> w_wait l = true ->
-    safe t (k (vN req_Response)) (set_done l true) Q ->
+    safe t (k (vN req_Response)) (set_tgt (set_done l true) None) Q ->
     (forall v, v <> req_Response -> v <> req_Empty -> safe t (k (vN v)) l Q) ->
     safe t (Act (@a_ld C Rs P r FReq) k) l Q.
   Proof.
@@ -1303,9 +1305,10 @@ Section Shape.
     pose proof Hi as (Hl & HG & HK). pose proof (HK t) as K0. rewrite Hv in K0. fold (rq g r).
     pose proof (k_wait K0 Hw Hm) as Hne.
     destruct (Nat.eq_dec (rq g r) req_Response) as [E|E].
-    - rewrite E. exists (setv a t (set_done l true)). split; [|split; [apply frame_setv|rewrite view_setv; exact K1]].
-      eapply Inv_view; eauto; [|apply nolost_acc]. destruct K0. split; cbn; auto.
-      intros _ r0 H0. assert (r0 = r) by congruence. subst r0. exact E.
+    - rewrite E. exists (setv a t (set_tgt (set_done l true) None)). split; [|split; [apply frame_setv|rewrite view_setv; exact K1]].
+      eapply Inv_view; eauto; [|apply nolost_acc]. destruct K0. split; cbn; auto; try discriminate.
+      + intros _ r0 H0. assert (r0 = r) by congruence. subst r0. exact E.
+      + intros q0 Hq0. destruct (k_cur0 q0 Hq0) as (A & B & D & F). repeat split; auto. discriminate.
     - exists a. split; [apply Inv_trace; [exact Hi|apply nolost_acc]|]. split; [apply frame_refl|]. unfold view. rewrite Hv. apply K2; assumption.
   Qed.
 
@@ -1449,14 +1452,14 @@ Section Shape.
   (** pPrev = x; p = x->pNext.load() *)
   Lemma safe_ld_next_pp_b R t x (k : V -> prog R) l Q :
     w_hold l = true -> (x = head \/ w_cur l = Some x) -> w_tgt l = None ->
-    (forall v, safe t (k (vN v)) (set_nx (set_cur (set_pp l (Some x)) (tgt_of v)) None) Q) ->
+    (forall v, safe t (k (vN v)) (set_link (set_nx (set_cur (set_pp l (Some x)) (tgt_of v)) None) false) Q) ->
     safe t (Act (@a_ld C Rs P x FNext) k) l Q.
   Proof.
     intros Hh Hx Ht K. cbn [Conc.safe]. intros g a tr Hi Hv. unfold view in Hv. unfold a_ld; cbn [fst snd get_fld].
     pose proof Hi as (Hl & HG & HK). pose proof (HK t) as K0. rewrite Hv in K0. fold (nxt g x).
     assert (Hin : In x (LL a)).
     { destruct Hx as [E|Hc]; [subst x; left; reflexivity|]. apply (k_cur K0 Hc). }
-    exists (setv a t (set_nx (set_cur (set_pp l (Some x)) (tgt_of (nxt g x))) None)).
+    exists (setv a t (set_link (set_nx (set_cur (set_pp l (Some x)) (tgt_of (nxt g x))) None) false)).
     split; [|split; [apply frame_setv|rewrite view_setv; apply K]].
     eapply Inv_view; eauto; [|apply nolost_acc].
     rewrite (gl_link HG Hin). destruct (succ_of (LL a) x) as [y|] eqn:Es; cbn [ptr tgt_of].
@@ -1482,7 +1485,6 @@ Section Shape.
     eapply Inv_view; eauto; [|apply nolost_acc].
     destruct K0. split; cbn; auto. intros r0 n Hn. inversion Hn; subst r0 n. auto.
   Qed.
-(* ==DEV== *)
   (** the unlink CAS of compact_list: pPrev->pNext.compare_exchange( p, pNext ) *)
   Lemma safe_cas_unlink_b R t x r n (act : bool) (k : V -> prog R) l Q :
     w_pp l = Some x -> w_cur l = Some r -> w_nx l = Some (r, n) -> w_deact l = None -> w_tgt l = None -> w_own l = OUnk ->
@@ -1579,7 +1581,7 @@ Section Shape.
       + intros y. destruct (Hx y) as (E & _). rewrite E. apply gl_st0.
     - (* Know of the combiner *)
       assert (Hcur : forall y, tgt_of n = Some y -> In y (head :: pl') /\ In y pl').
-      { intros y Hy. destruct (succ_of (LL a) r) as [y'|] eqn:Es; cbn in Enr; subst n; cbn in Hy; [|discriminate].
+      { intros y Hy. rewrite Enr in Hy. destruct (succ_of (LL a) r) as [y'|] eqn:Es; cbn in Hy; [|discriminate].
         inversion Hy; subst y'. pose proof (@succ_not_first head (s_pl a) r y Hnd Es) as Hyp.
         assert (y <> r) by (apply (@succ_ne _ Hnd r y Es)).
         split; [right|]; apply in_del; auto. }
@@ -1606,5 +1608,738 @@ Section Shape.
       + intros y Hy. destruct (k_vic0 y Hy) as (A & B & D & F). split; [apply Hun; exact A|]. repeat split; auto.
         intros Hin. apply in_del in Hin. apply F. apply Hin.
       + rewrite Ht. discriminate.
+  Qed.
+  (** p->nState.store( inactive ) after the unlink *)
+  Lemma safe_st_inactive_b R t r (k : V -> prog R) l Q :
+    w_deact l = Some r -> w_hold l = true -> w_link l = false ->
+    (forall v, safe t (k v) (set_deact l None) Q) ->
+    safe t (Act (@a_st C Rs P r FState st_inactive) k) l Q.
+  Proof.
+    intros Hd Hh Hlk K. cbn [Conc.safe]. intros g a tr Hi Hv. unfold view in Hv. unfold a_st; cbn [fst snd].
+    pose proof Hi as (Hl & HG & HK). pose proof (HK t) as K0. rewrite Hv in K0.
+    destruct (k_deact K0 Hd) as (_ & Hnin & Hlt & Hown).
+    own_fields g r FState st_inactive. set (g' := upd_rec g r (set_fld (g_recs g r) FState st_inactive)) in *.
+    assert (Hx : forall q, nxt g' q = nxt g q /\ rq g' q = rq g q /\ (q <> r -> stt g' q = stt g q) /\ stt g' r = st_inactive).
+    { intros q. fields_of Hf q. fields_of Hf r. rewrite Nat.eqb_refl. destruct (Nat.eqb_spec q r); repeat split; auto; congruence. }
+    set (l' := set_deact l None).
+    exists (setv (setpl a (s_pl a)) t l').
+    split; [|split; [eapply frame_trans; [apply frame_setpl|apply frame_setv]|unfold view; cbn; rewrite upd_same; apply K]].
+    assert (Hun : forall y, unowned a y <-> unowned (setv (setpl a (s_pl a)) t l') y).
+    { intros y. unfold unowned; cbn. split; intros H v; specialize (H v); unfold upd in *;
+        (destruct (Nat.eqb_spec v t) as [E|E]; [rewrite E in *|]); subst l'; cbn in *; congruence. }
+    refine (@holder_step g g' a tr t l l' (s_pl a) _ Hi Hv Hh _ _ _ eq_refl _ _ _ _ _ _ _).
+    - reflexivity.
+    - reflexivity.
+    - exact Hh.
+    - auto.
+    - intros q Hne. exfalso. apply Hne. apply (Hx q).
+    - intros q Hne v Hv0. destruct (Nat.eq_dec q r) as [E|E]; [subst q; apply (Hown v Hv0)|exfalso; apply Hne; apply (Hx q); exact E].
+    - intros q Hne. exfalso. apply Hne. apply (Hx q).
+    - apply nolost_acc.
+    - destruct HG. split; unfold LL; cbn [s_pl setv setpl].
+      + intros Hfr u. cbn. unfold upd. destruct (Nat.eqb_spec u t) as [E|E]; [exfalso; pose proof (gl_free0 Hfr t) as F; rewrite Hv in F; congruence|auto].
+      + intros u u' H1 H2. cbn in *. unfold upd in *. apply gl_uniq0;
+          [destruct (Nat.eqb_spec u t) as [E|E]|destruct (Nat.eqb_spec u' t) as [E|E]]; subst; subst l'; cbn in *; congruence.
+      + intros u u' r0 H1 H2. cbn in *. unfold upd in *. apply (gl_inj0 u u' r0);
+          [destruct (Nat.eqb_spec u t) as [E|E]|destruct (Nat.eqb_spec u' t) as [E|E]]; subst; subst l'; cbn in *; congruence.
+      + intros q Hq. destruct (Hx q) as (E & _). rewrite E. apply gl_link0. exact Hq.
+      + exact gl_nodup0.
+      + intros y Hy. destruct (gl_pl0 y Hy) as [A B]. split; [exact A|]. destruct (Hx y) as (_ & _ & E & _). rewrite E; [exact B|]. intros ->. contradiction.
+      + intros y Hs. destruct (Nat.eq_dec y r) as [->|Hyr]; [destruct (Hx r) as (_ & _ & _ & E); rewrite E in Hs; discriminate|].
+        destruct (Hx y) as (_ & _ & E & _). rewrite (E Hyr) in Hs.
+        destruct (gl_act0 y Hs) as [A|[(u & A & B)|[(u & A)|A]]].
+        * left. exact A.
+        * right. left. exists u. cbn. unfold upd. destruct (Nat.eqb_spec u t) as [E1|E1]; [|auto]. subst u. subst l'. cbn. rewrite <- Hv. auto.
+        * right. right. left. exists u. cbn. unfold upd. destruct (Nat.eqb_spec u t) as [E1|E1]; [|exact A].
+          subst u. rewrite Hv in A. congruence.
+        * right. right. right. apply Hun. exact A.
+      + intros y Hs. apply Hun. apply gl_rem0. destruct (Nat.eq_dec y r) as [->|Hyr]; [destruct (Hx r) as (_ & _ & _ & E); rewrite E in Hs; discriminate|].
+        destruct (Hx y) as (_ & _ & E & _). rewrite <- (E Hyr). exact Hs.
+      + intros y Hle. destruct (Hx y) as (_ & _ & E & _). rewrite E; [apply gl_fresh0; exact Hle|]. intros E2. subst y. unfold g' in Hle. cbn in Hle. lia.
+      + destruct gl_head0 as [A B]. split; [|exact B]. destruct (Nat.eq_dec head r) as [E0|E0].
+        * rewrite E0. destruct (Hx r) as (_ & _ & _ & E). rewrite E. unfold st_inactive, st_removed. discriminate.
+        * destruct (Hx head) as (_ & _ & E & _). rewrite (E E0). exact A.
+      + intros y. destruct (Nat.eq_dec y r) as [->|Hyr]; [destruct (Hx r) as (_ & _ & _ & E); rewrite E; unfold st_inactive; lia|].
+        destruct (Hx y) as (_ & _ & E & _). rewrite (E Hyr). apply gl_st0.
+    - destruct K0. subst l'. split; cbn [s_pl setv setpl LL]; cbn; auto.
+      + intros Ho r0 H0. destruct (Nat.eq_dec r0 r) as [->|Hne].
+        * exfalso. destruct (Hown t) as [D1 _]; [rewrite Hv; exact H0|]. rewrite Hv in D1. congruence.
+        * destruct (Hx r0) as (_ & _ & E & _). rewrite (E Hne). auto.
+      + intros p Hp Ho r0 H0. destruct (Hx r0) as (E & _). rewrite E. eauto.
+      + intros Hw r0 H0. destruct (Hx r0) as (_ & E & _). rewrite E. auto.
+      + intros Hw r0 H0. destruct (Hx r0) as (_ & E & _). rewrite E. auto.
+      + rewrite Hlk. discriminate.
+      + intros r0 n Hn. destruct (k_nx0 r0 n Hn) as (A & B & D). destruct (Hx r0) as (E & _). rewrite E. auto.
+      + discriminate.
+      + intros y Hy. destruct (k_cand0 y Hy) as (A & B). split; [apply Hun; exact A|exact B].
+      + intros y Hy. destruct (k_vic0 y Hy) as (A & B). split; [apply Hun; exact A|exact B].
+      + intros v Hc. destruct (k_tgt0 v Hc) as [A|[A B]]; [left; exact A|right; split; [apply Hun; exact A|exact B]].
+  Qed.
+  (** reading nState = removed: the record has no owner any more *)
+  Lemma safe_ld_state_cand_b R t r (k : V -> prog R) l Q :
+    (forall v, v <> st_removed -> safe t (k (vN v)) l Q) ->
+    safe t (k (vN st_removed)) (set_cand l (Some r)) Q ->
+    safe t (Act (@a_ld C Rs P r FState) k) l Q.
+  Proof.
+    intros K1 K2. cbn [Conc.safe]. intros g a tr Hi Hv. unfold view in Hv. unfold a_ld; cbn [fst snd get_fld].
+    pose proof Hi as (Hl & HG & HK). pose proof (HK t) as K0. rewrite Hv in K0. fold (stt g r).
+    destruct (Nat.eq_dec (stt g r) st_removed) as [E|E].
+    - rewrite E. exists (setv a t (set_cand l (Some r))). split; [|split; [apply frame_setv|rewrite view_setv; exact K2]].
+      eapply Inv_view; eauto; [|apply nolost_acc]. destruct K0. split; cbn; auto.
+      intros x Hx. inversion Hx; subst x. split; [apply (gl_rem HG E)|]. split.
+      + destruct (le_lt_dec (g_nrec g) r) as [Hle|Hlt]; [|exact Hlt]. exfalso. apply (gl_fresh HG Hle). exact E.
+      + intros E2. subst r. apply (proj1 (gl_head HG)). exact E.
+    - exists a. split; [apply Inv_trace; [exact Hi|apply nolost_acc]|]. split; [apply frame_refl|unfold view; rewrite Hv; apply K1; exact E].
+  Qed.
+
+  (** is_published( victim ) starts: p = m_pHead->pNext.load() *)
+  Lemma safe_ld_head_pub_b R t vi (k : V -> prog R) l Q :
+    w_hold l = true -> w_cand l = Some vi -> w_pp l = None ->
+    safe t (k (vN 0)) (set_vic (set_tgt (set_cur l None) None) (Some vi)) Q ->
+    (forall y, safe t (k (vN (Datatypes.S y))) (set_tgt (set_cur l (Some y)) (Some vi)) Q) ->
+    safe t (Act (@a_ld C Rs P head FNext) k) l Q.
+  Proof.
+    intros Hh Hca Hp K0' K1. cbn [Conc.safe]. intros g a tr Hi Hv. unfold view in Hv. unfold a_ld; cbn [fst snd get_fld].
+    pose proof Hi as (Hl & HG & HK). pose proof (HK t) as K0. rewrite Hv in K0. fold (nxt g head).
+    assert (Hin : In head (LL a)) by (left; reflexivity).
+    destruct (k_cand K0 Hca) as (Hu & Hlt & Hnh).
+    rewrite (gl_link HG Hin). unfold LL at 1. cbn [succ_of]. rewrite Nat.eqb_refl.
+    destruct (s_pl a) as [|y pl] eqn:Epl; cbn [hd_error ptr].
+    - exists (setv a t (set_vic (set_tgt (set_cur l None) None) (Some vi))).
+      split; [|split; [apply frame_setv|rewrite view_setv; exact K0']].
+      eapply Inv_view; eauto; [|apply nolost_acc].
+      destruct K0. split; cbn; auto; try discriminate.
+      intros x Hx. inversion Hx; subst x. rewrite ?Epl. repeat split; auto.
+    - exists (setv a t (set_tgt (set_cur l (Some y)) (Some vi))).
+      split; [|split; [apply frame_setv|rewrite view_setv; apply K1]].
+      eapply Inv_view; eauto; [|apply nolost_acc].
+      destruct K0. split; cbn; auto.
+      + intros y' Hy'. inversion Hy'; subst y'. split; [exact Hh|]. rewrite ?Epl. split; [right; left; reflexivity|].
+        split; [|rewrite Hp; intros F; exfalso; apply F; reflexivity].
+        intros v Hv' Hvin. unfold LL. rewrite ?Epl. cbn. destruct (Nat.eqb_spec y head) as [E|E].
+        * right. exact Hvin.
+        * rewrite Nat.eqb_refl. exact Hvin.
+      + intros v Hv'. inversion Hv'; subst v. right. split; assumption.
+  Qed.
+  (** loop 2: unlink from the allocated list and free; the victim is unowned and not in the publication list *)
+  Lemma safe_cas_free_b R t pp e d vi (k : V -> prog R) l Q :
+    w_hold l = true -> w_vic l = Some vi ->
+    (forall v, v <> e -> safe t (k (vN v)) l Q) ->
+    safe t (k (vN e)) (set_vic (set_cand l None) None) Q ->
+    safe t (Act (@a_cas_free C Rs rs0 P pp e d vi) k) l Q.
+  Proof.
+    intros Hh Hvi K1 K2. cbn [Conc.safe]. intros g a tr Hi Hv. unfold view in Hv. unfold a_cas_free.
+    pose proof Hi as (Hl & HG & HK). pose proof (HK t) as K0. rewrite Hv in K0.
+    destruct (Nat.eqb_spec (get_fld (g_recs g pp) FNextA) e) as [Ee|Ee]; cbn [fst snd].
+    2:{ exists a. split; [apply Inv_trace; [exact Hi|apply nolost_acc]|]. split; [apply frame_refl|unfold view; rewrite Hv; apply K1; exact Ee]. }
+    rewrite Ee.
+    destruct (k_vic K0 Hvi) as (Hu & Hlt & Hnh & Hnin).
+    set (g' := upd_rec (upd_rec g pp (set_fld (g_recs g pp) FNextA d)) vi (rec_poison rs0)).
+    assert (Hx : forall q, q <> vi -> nxt g' q = nxt g q /\ stt g' q = stt g q /\ rq g' q = rq g q).
+    { intros q Hq. unfold g', nxt, stt, rq, upd_rec; cbn. destruct (Nat.eqb_spec q vi); [congruence|].
+      destruct (Nat.eqb_spec q pp) as [E|E]; [rewrite E|]; auto. }
+    assert (Hz : nxt g' vi = 0 /\ stt g' vi = 0 /\ rq g' vi = 0).
+    { unfold g', nxt, stt, rq, upd_rec; cbn. rewrite Nat.eqb_refl. auto. }
+    destruct Hz as (Z1 & Z2 & Z3).
+    set (l' := set_vic (set_cand l None) None).
+    exists (setv (setpl a (s_pl a)) t l').
+    split; [|split; [eapply frame_trans; [apply frame_setpl|apply frame_setv]|unfold view; cbn; rewrite upd_same; exact K2]].
+    assert (Hun : forall y, unowned a y <-> unowned (setv (setpl a (s_pl a)) t l') y).
+    { intros y. unfold unowned; cbn. split; intros H v; specialize (H v); unfold upd in *;
+        (destruct (Nat.eqb_spec v t) as [E|E]; [rewrite E in *|]); subst l'; cbn in *; congruence. }
+    assert (Hmy : forall u r0, w_my (s_v a u) = Some r0 -> r0 <> vi) by (intros u r0 H0 E; subst r0; apply (Hu u); exact H0).
+    assert (He : nolost (acc g KCas pp FNextA true ++ [EvCli "free" []])).
+    { unfold nolost. apply Forall_app. split; [apply nolost_acc|repeat constructor]. }
+    refine (@holder_step g g' a tr t l l' (s_pl a) _ Hi Hv Hh _ _ _ eq_refl _ _ _ _ He _ _).
+    - reflexivity.
+    - reflexivity.
+    - exact Hh.
+    - auto.
+    - intros q Hne. right. destruct (Nat.eq_dec q vi) as [E|E]; [subst q; exact Hu|exfalso; apply Hne; apply (Hx q E)].
+    - intros q Hne v Hv0. destruct (Nat.eq_dec q vi) as [E|E]; [subst q; exfalso; apply (Hu v); exact Hv0|exfalso; apply Hne; apply (Hx q E)].
+    - intros q Hne. right. destruct (Nat.eq_dec q vi) as [E|E]; [subst q; exact Hu|exfalso; apply Hne; apply (Hx q E)].
+    - destruct HG. split; unfold LL; cbn [s_pl setv setpl].
+      + intros Hfr u. cbn. unfold upd. destruct (Nat.eqb_spec u t) as [E|E]; [exfalso; pose proof (gl_free0 Hfr t) as F; rewrite Hv in F; congruence|auto].
+      + intros u u' H1 H2. cbn in *. unfold upd in *. apply gl_uniq0;
+          [destruct (Nat.eqb_spec u t) as [E|E]|destruct (Nat.eqb_spec u' t) as [E|E]]; subst; subst l'; cbn in *; congruence.
+      + intros u u' r0 H1 H2. cbn in *. unfold upd in *. apply (gl_inj0 u u' r0);
+          [destruct (Nat.eqb_spec u t) as [E|E]|destruct (Nat.eqb_spec u' t) as [E|E]]; subst; subst l'; cbn in *; congruence.
+      + intros q Hq. destruct (Hx q) as (E & _); [intros ->; destruct Hq as [F|F]; [congruence|contradiction]|]. rewrite E. apply gl_link0. exact Hq.
+      + exact gl_nodup0.
+      + intros y Hy. destruct (Hx y) as (_ & E & _); [intros ->; contradiction|]. rewrite E. apply gl_pl0. exact Hy.
+      + intros y Hs. destruct (Nat.eq_dec y vi) as [->|Hyv]; [rewrite Z2 in Hs; discriminate|].
+        destruct (Hx y Hyv) as (_ & E & _). rewrite E in Hs.
+        destruct (gl_act0 y Hs) as [A|[(u & A & B)|[(u & A)|A]]].
+        * left. exact A.
+        * right. left. exists u. cbn. unfold upd. destruct (Nat.eqb_spec u t) as [E1|E1]; [|auto]. subst u. subst l'. cbn. rewrite <- Hv. auto.
+        * right. right. left. exists u. cbn. unfold upd. destruct (Nat.eqb_spec u t) as [E1|E1]; [|exact A].
+          subst u. subst l'. cbn. rewrite <- Hv. exact A.
+        * right. right. right. apply Hun. exact A.
+      + intros y Hs. apply Hun. destruct (Nat.eq_dec y vi) as [->|Hyv]; [exact Hu|].
+        apply gl_rem0. destruct (Hx y Hyv) as (_ & E & _). rewrite <- E. exact Hs.
+      + intros y Hle. destruct (Hx y) as (_ & E & _); [intros ->; unfold g' in Hle; cbn in Hle; lia|]. rewrite E. apply gl_fresh0. exact Hle.
+      + destruct gl_head0 as [A B]. split; [|exact B]. destruct (Hx head) as (_ & E & _); [auto|]. rewrite E. exact A.
+      + intros y. destruct (Nat.eq_dec y vi) as [->|Hyv]; [rewrite Z2; lia|]. destruct (Hx y Hyv) as (_ & E & _). rewrite E. apply gl_st0.
+    - destruct K0. subst l'. split; cbn [s_pl setv setpl LL]; cbn; auto; try discriminate.
+      + intros Ho r0 H0. destruct (Hx r0) as (_ & E & _); [apply (Hmy t); rewrite Hv; exact H0|]. rewrite E. auto.
+      + intros p Hp Ho r0 H0. destruct (Hx r0) as (E & _); [apply (Hmy t); rewrite Hv; exact H0|]. rewrite E. eauto.
+      + intros Hw r0 H0. destruct (Hx r0) as (_ & _ & E); [apply (Hmy t); rewrite Hv; exact H0|]. rewrite E. auto.
+      + intros Hw r0 H0. destruct (Hx r0) as (_ & _ & E); [apply (Hmy t); rewrite Hv; exact H0|]. rewrite E. auto.
+      + intros Hk. destruct (k_link0 Hk) as [A B]. split; auto. intros r0 H0.
+        destruct (Hx r0) as (_ & E & _); [apply (Hmy t); rewrite Hv; exact H0|]. rewrite E. auto.
+      + intros r0 n Hn. destruct (k_nx0 r0 n Hn) as (A & B & D). destruct (Hx r0) as (E & _); [intros ->; contradiction|]. rewrite E. auto.
+      + intros r0 Hd. destruct (k_deact0 r0 Hd) as (A & B & B' & D). split; auto. split; auto. split; auto.
+        intros t0 Ht0. cbn in Ht0. unfold upd in *. cbn. unfold upd.
+        assert (Hm0 : w_my (s_v a t0) = Some r0) by (destruct (Nat.eqb_spec t0 t) as [E2|E2]; [rewrite E2, Hv; exact Ht0|exact Ht0]).
+        destruct (D t0 Hm0) as [D1 D2]. destruct (Hx r0) as (_ & E & _); [apply (Hmy t0); exact Hm0|]. rewrite E.
+        destruct (Nat.eqb_spec t0 t) as [E2|E2]; [cbn; rewrite <- Hv, <- E2; auto|auto].
+      + intros v Hc. destruct (k_tgt0 v Hc) as [A|[A B]]; [left; exact A|right; split; [apply Hun; exact A|exact B]].
+  Qed.
+  (** forgetting what was learnt under the lock is always sound *)
+  Definition forget (l : sview) : sview :=
+    set_vic (set_cand (set_nx (set_pp (set_tgt (set_cur (set_link l false) None) None) None) None) None) None.
+
+  Lemma GhostOK_forget t l : GhostOK t l (forget l).
+  Proof.
+    unfold GhostOK, forget. split; [reflexivity|]. split; [reflexivity|]. split; [reflexivity|]. split; [auto|].
+    intros g a HG HK Hv. pose proof (HK t) as K0. rewrite Hv in K0. destruct K0. split; cbn; auto; discriminate.
+  Qed.
+  (** ** the programs *)
+  Notation kpublish := (@publish C Rs P).
+  Notation krepublish := (@republish C Rs P).
+  Notation kpush_loop := (@push_loop C Rs P).
+  Notation kcpass := (@cpass C Rs rs_enc capply P).
+  Notation kpasses := (@passes C Rs rs_enc capply P).
+  Notation kskip := (@skip_inactive C Rs P).
+  Notation kwalk := (@process_walk C Rs rs_enc P pvisit).
+  Notation kfc_process := (@fc_process C Rs rs_enc P pinit pvisit).
+  Notation kprocess_passes := (@process_passes C Rs rs_enc P pinit pvisit).
+  Notation kis_published := (@is_published C Rs P).
+  Notation kcompact1 := (@compact1 C Rs P).
+  Notation kcompact2 := (@compact2 C Rs rs0 P true).
+  Notation kcompact_list := (@compact_list C Rs rs0 P true).
+  Notation kcombining := (@combining C Rs rs0 rs_enc capply P pinit pvisit true).
+  Notation kwait := (@wait_for_combining C Rs P).
+  Notation ktry := (@try_combining C Rs rs0 rs_enc capply P pinit pvisit true).
+  Notation krequest := (@request C Rs rs0 rs_enc capply P pinit pvisit true).
+  Notation kacquire := (@acquire_record C Rs rs0 P).
+  Notation kexit := (@thread_exit C Rs P).
+  Notation krun_ops := (@run_ops C Rs rs0 rs_enc capply P pinit pvisit true).
+  Notation kthread_prog := (@thread_prog C Rs rs0 rs_enc capply P pinit pvisit true).
+
+  Definition optQ {A} (Pq : A -> sview -> Prop) : option A -> sview -> Prop :=
+    fun o l => match o with None => True | Some x => Pq x l end.
+
+  Lemma safe_obind A B t (p : prog (option A)) (q : A -> prog (option B)) l (Pq : B -> sview -> Prop) :
+    safe t p l (optQ (fun x l' => safe t (q x) l' (optQ Pq))) -> safe t (obind p q) l (optQ Pq).
+  Proof.
+    intros H. unfold obind. apply Conc.safe_bind. eapply Conc.safe_weaken; [|exact H].
+    intros [x|] l' Hx; cbn in *; auto.
+  Qed.
+
+  Ltac nbs := first [ apply nb_ld | apply nb_begin | apply nb_ldcount | apply nb_faacount | apply nb_apply | apply nb_visit
+                    | apply nb_st; reflexivity | apply nb_cas; reflexivity ].
+  Ltac nb := apply safe_nb; [nbs|intros ?v].
+
+  (** the view of a thread: record [r], lock held [h], request outstanding [w], answered [d], own record linked [lk];
+      nothing else remembered *)
+  Record St (r : nat) (h w d lk : bool) (l : sview) : Prop := {
+    st_my : w_my l = Some r; st_own : w_own l = OUnk; st_mynx : w_mynx l = None; st_wait : w_wait l = w;
+    st_done : w_done l = d; st_hold : w_hold l = h; st_link : w_link l = lk; st_cur : w_cur l = None;
+    st_tgt : w_tgt l = None; st_pp : w_pp l = None; st_nx : w_nx l = None; st_deact : w_deact l = None }.
+
+  Lemma safe_push_loop_a t r l (Pq : unit -> sview -> Prop) :
+    Pq tt l -> forall fuel p, safe t (kpush_loop fuel FNextA r p) l (optQ Pq).
+  Proof.
+    intros HQ. induction fuel as [|fu IH]; intros p; cbn [push_loop]; [exact I|].
+    nb. nb. destruct (Nat.eqb (vn v0) p); [exact HQ|apply IH].
+  Qed.
+
+  (** the link loop of publish *)
+  Lemma safe_push_loop_n t r h w d : forall fuel p l,
+    w_my l = Some r -> w_own l = OPub -> w_wait l = w -> w_done l = d -> w_hold l = h -> w_link l = false ->
+    w_cur l = None -> w_tgt l = None -> w_pp l = None -> w_nx l = None -> w_deact l = None ->
+    safe t (kpush_loop fuel FNext r p) l (optQ (fun _ l' => St r h w d h l')).
+  Proof.
+    induction fuel as [|fu IH]; intros p l Hm Ho Hw Hd Hh Hlk Hc Ht Hp Hn Hde; cbn [push_loop]; [exact I|].
+    apply safe_st_next_b; [exact Hm|rewrite Ho; discriminate|]. intros v.
+    apply safe_cas_link_b with (r := r) (p := p); cbn; auto.
+    - intros v0 Hne. cbn [vn]. destruct (Nat.eqb_spec v0 p); [contradiction|]. apply IH; cbn; auto.
+    - cbn [vn]. rewrite Nat.eqb_refl. cbn. split; cbn; auto.
+  Qed.
+
+  Lemma safe_publish_b t fuel r h w d l : 1 <= r ->
+    w_my l = Some r -> w_own l = OUnl -> w_mynx l = None -> w_wait l = w -> w_done l = d -> w_hold l = h -> w_link l = false ->
+    w_cur l = None -> w_tgt l = None -> w_pp l = None -> w_nx l = None -> w_deact l = None ->
+    safe t (kpublish fuel r) l (optQ (fun _ l' => St r h w d h l')).
+  Proof.
+    intros Hr Hm Ho Hmn Hw Hd Hh Hlk Hc Ht Hp Hn Hde. unfold publish. nb. nb.
+    apply safe_st_active_b; [exact Hm|exact Ho|]. intros v1.
+    destruct (Nat.eqb_spec r head) as [E|E]; [unfold head in E; lia|].
+    apply safe_ld_head_next_pub_b with (r := r); [exact Hm|cbn; discriminate|]. intros v2 Hv2. cbn [vn].
+    destruct (Nat.eqb_spec v2 (Datatypes.S r)); [contradiction|].
+    apply safe_push_loop_n; cbn; auto.
+  Qed.
+
+  Lemma safe_republish_b t fuel r h w d l : 1 <= r -> St r h w d false l ->
+    safe t (krepublish fuel r) l (optQ (fun _ l' => St r h w d h l')).
+  Proof.
+    intros Hr H. destruct H. unfold republish.
+    apply safe_ld_state_own_b; auto.
+    - cbn [vn]. rewrite Nat.eqb_refl. cbn. rewrite st_hold0. destruct h; split; cbn; auto.
+    - intros v Hv. cbn [vn]. destruct (Nat.eqb_spec v st_active); [contradiction|]. apply safe_publish_b; cbn; auto.
+  Qed.
+  (** *** combining_pass: the combiner reaches its own record *)
+  Record W (r : nat) (c tg : option nat) (d : bool) (l : sview) : Prop := {
+    w1 : w_my l = Some r; w2 : w_own l = OUnk; w3 : w_mynx l = None; w4 : w_wait l = true; w5 : w_done l = d;
+    w6 : w_hold l = true; w7 : w_link l = true; w8 : w_cur l = c; w9 : w_tgt l = tg; w10 : w_pp l = None;
+    w11 : w_nx l = None; w12 : w_deact l = None }.
+
+  Lemma W_St r d l : St r true true d true l -> W r None None d l.
+  Proof. intros H. destruct H. split; auto. Qed.
+  Lemma St_W r c d l : W r c None d l -> St r true true d true (set_cur l None).
+  Proof. intros H. destruct H. split; cbn; auto. Qed.
+
+  Lemma done_if_ne l r q : w_my l = Some r -> r <> q -> done_if l q = l.
+  Proof. intros Hm Hne. unfold done_if. rewrite Hm. destruct (Nat.eqb_spec r q); [contradiction|reflexivity]. Qed.
+  Lemma done_if_eq l r : w_my l = Some r -> done_if l r = set_tgt (set_done l true) None.
+  Proof. intros Hm. unfold done_if. rewrite Hm, Nat.eqb_refl. reflexivity. Qed.
+
+  (** the walk state: either still looking for the own record [r] (which is further on), or past it with the
+      request answered *)
+  Definition WS (r : nat) (p : nat) (l : sview) : Prop :=
+    (exists q d, p = Datatypes.S q /\ W r (Some q) (Some r) d l) \/ W r (tgt_of p) None true l.
+
+  Lemma safe_cpass_walk t r age : forall fuel p b l, WS r p l ->
+    safe t (kcpass fuel age p b) l (optQ (fun _ l' => W r None None true l')).
+  Proof.
+    induction fuel as [|fu IH]; intros p b l Hws; cbn [cpass]; [exact I|].
+    destruct p as [|q].
+    { destruct Hws as [(q & d & E & _)|Hw]; [discriminate|]. cbn. exact Hw. }
+    (* the step that reads q->pNext and goes on, in a state where the own record is not q or is behind *)
+    assert (Hnext : forall l1 b1, ((exists d, W r (Some q) (Some r) d l1 /\ q <> r) \/ W r (Some q) None true l1) ->
+              safe t (Act (@a_ld C Rs P q FNext) (fun n => kcpass fu age (vn n) b1)) l1
+                   (optQ (fun _ l' => W r None None true l'))).
+    { intros l1 b1 [(d & Hw & Hne)|Hw].
+      - destruct Hw as [m1 m2 m3 m4 m5 m6 m7 m8 m9 m10 m11 m12]. eapply safe_ld_next_seek_b with (r := r); eauto. intros y. cbn [vn]. apply IH.
+        left. exists y, d. split; [reflexivity|]. split; cbn; auto.
+      - destruct Hw as [m1 m2 m3 m4 m5 m6 m7 m8 m9 m10 m11 m12]. eapply safe_ld_next_walk_b; eauto. intros v. cbn [vn]. apply IH. right. split; cbn; auto. }
+    destruct Hws as [(q' & d & E & Hw)|Hw].
+    - inversion E; subst q'. destruct (Nat.eq_dec q r) as [->|Hne].
+      + (* at the own record *)
+        pose proof Hw as Hw0. destruct Hw as [m1 m2 m3 m4 m5 m6 m7 m8 m9 m10 m11 m12].
+        apply safe_ld_state_linked_b with (r := r); auto. cbn [vn]. rewrite Nat.eqb_refl.
+        apply safe_ld_req_own_b with (r := r); auto.
+        * cbn [vn]. cbn. apply Hnext. right. split; cbn; auto.
+        * intros v Hv1 Hv0. cbn [vn]. destruct (Nat.leb_spec req_Operation v); [|unfold req_Operation, req_Response, req_Empty in *; lia].
+          nb. nb. apply safe_done_b; [exact m6|]. intros v2. rewrite (done_if_eq _ m1).
+          apply Hnext. right. split; cbn; auto.
+      + nb. assert (Hn : forall b1, safe t (Act (@a_ld C Rs P q FNext) (fun n => kcpass fu age (vn n) b1)) l (optQ (fun _ l' => W r None None true l'))).
+        { intros b1. apply Hnext. left. exists d. split; assumption. }
+        destruct (Nat.eqb (vn v) st_active); [|apply Hn]. nb.
+        destruct (Nat.leb req_Operation (vn v0)); [|apply Hn]. nb. nb.
+        pose proof Hw as Hw0. destruct Hw as [m1 m2 m3 m4 m5 m6 m7 m8 m9 m10 m11 m12]. apply safe_done_b; [exact m6|]. intros v3.
+        rewrite (done_if_ne _ m1 (not_eq_sym Hne)). apply Hn.
+    - cbn [tgt_of] in Hw. nb.
+      assert (Hn : forall b1 l1, W r (Some q) None true l1 -> safe t (Act (@a_ld C Rs P q FNext) (fun n => kcpass fu age (vn n) b1)) l1 (optQ (fun _ l' => W r None None true l'))).
+      { intros b1 l1 H1. apply Hnext. right. exact H1. }
+      destruct (Nat.eqb (vn v) st_active); [|apply Hn; exact Hw]. nb.
+      destruct (Nat.leb req_Operation (vn v0)); [|apply Hn; exact Hw]. nb. nb.
+      pose proof Hw as Hw0. destruct Hw as [m1 m2 m3 m4 m5 m6 m7 m8 m9 m10 m11 m12]. apply safe_done_b; [exact m6|]. intros v3. apply Hn.
+      unfold done_if. rewrite m1. destruct (Nat.eqb r q); [split; cbn; auto|exact Hw0].
+  Qed.
+  Lemma safe_cpass_top t r age fuel b d l : 1 <= r -> St r true true d true l ->
+    safe t (kcpass fuel age (Datatypes.S head) b) l (optQ (fun _ l' => St r true true true true l')).
+  Proof.
+    intros Hr Hst. eapply Conc.safe_weaken with (Q := optQ (fun _ l' => W r None None true l')).
+    { intros [x|] l' Hx; [|exact I]. cbn in *. destruct Hx. split; auto. }
+    destruct fuel as [|fu]; cbn [cpass]; [exact I|].
+    assert (Hhr : r <> head) by (unfold head; lia).
+    set (tg := if d then None else Some r).
+    set (l1 := set_tgt (set_cur l (Some head)) tg).
+    pose proof Hst as [s1 s2 s3 s4 s5 s6 s7 s8 s9 s10 s11 s12].
+    assert (Hws : WS r (Datatypes.S head) l1).
+    { unfold WS, l1, tg. destruct d; [right; split; cbn; auto|left; exists head, false; split; [reflexivity|split; cbn; auto]]. }
+    assert (Hm1 : w_my l1 = Some r) by exact s1.
+    assert (Hh1 : w_hold l1 = true) by exact s6.
+    apply safe_nbg with (l' := l1); [nbs|apply GhostOK_start; [exact s6|exact s10|]|].
+    { intros v Hv. unfold tg in Hv. destruct d; [discriminate|]. inversion Hv; subst v. exact s1. }
+    intros v.
+    assert (Hn : forall b1, safe t (Act (@a_ld C Rs P head FNext) (fun n => kcpass fu age (vn n) b1)) l1
+                   (optQ (fun _ l' => W r None None true l'))).
+    { intros b1. destruct Hws as [(q & d2 & E & Hw)|Hw].
+      - inversion E; subst q. destruct Hw as [m1 m2 m3 m4 m5 m6 m7 m8 m9 m10 m11 m12].
+        eapply safe_ld_next_seek_b with (r := r); eauto. intros y. cbn [vn]. apply safe_cpass_walk.
+        left. exists y, d2. split; [reflexivity|]. split; cbn; auto.
+      - cbn [tgt_of] in Hw. destruct Hw as [m1 m2 m3 m4 m5 m6 m7 m8 m9 m10 m11 m12].
+        eapply safe_ld_next_walk_b; eauto. intros v0. cbn [vn]. apply safe_cpass_walk. right. split; cbn; auto. }
+    destruct (Nat.eqb (vn v) st_active); [|apply Hn]. nb.
+    destruct (Nat.leb req_Operation (vn v0)); [|apply Hn]. nb. nb.
+    apply safe_done_b; [exact Hh1|]. intros v3. rewrite (done_if_ne _ Hm1 Hhr). apply Hn.
+  Qed.
+  Definition CombAny (r : nat) (l : sview) : Prop := exists d, St r true true d true l.
+
+  Lemma CombAny_done_if r l q : CombAny r l -> CombAny r (done_if l q).
+  Proof.
+    intros (d & H). destruct H as [s1 s2 s3 s4 s5 s6 s7 s8 s9 s10 s11 s12]. unfold done_if. rewrite s1.
+    destruct (Nat.eqb r q); [exists true; split; cbn; auto|exists d; split; auto].
+  Qed.
+
+  Lemma safe_passes_b t r fuel age : forall n nE nU d l, 1 <= r -> St r true true d true l -> (d = true \/ 1 <= n) ->
+    safe t (kpasses fuel age n nE nU) l (optQ (fun _ l' => St r true true true true l')).
+  Proof.
+    induction n as [|n IH]; intros nE nU d l Hr Hst Hd; cbn [passes].
+    - destruct Hd as [->|Hd]; [exact Hst|lia].
+    - apply safe_obind. eapply Conc.safe_weaken; [|eapply safe_cpass_top; eassumption].
+      intros [b|] l' Hx; [|exact I]. cbn in Hx. destruct b; [apply IH with (d := true); auto|].
+      destruct (Nat.ltb nU (Datatypes.S nE)); [exact Hx|apply IH with (d := true); auto].
+  Qed.
+
+  Lemma safe_skip_b t (Pq : nat -> sview -> Prop) l : (forall it, Pq it l) ->
+    forall fuel p, safe t (kskip fuel p) l (optQ Pq).
+  Proof.
+    intros HQ. induction fuel as [|fu IH]; intros p; cbn [skip_inactive]; [exact I|].
+    destruct p as [|r]; [apply HQ|]. nb. destruct (Nat.eqb (vn v) st_active).
+    - nb. destruct (Nat.leb req_Operation (vn v0)); [apply HQ|]. nb. apply IH.
+    - nb. apply IH.
+  Qed.
+
+  Lemma safe_dones_b R t r comps : forall (k : prog R) l Q, CombAny r l ->
+    (forall l', CombAny r l' -> safe t k l' Q) -> safe t (dones comps k) l Q.
+  Proof.
+    induction comps as [|[q rs] rest IH]; intros k l Q Hc K; cbn [dones]; [apply K; exact Hc|].
+    destruct Hc as (d & Hst). apply safe_done_b; [apply (st_hold Hst)|]. intros v.
+    apply IH; [apply CombAny_done_if; exists d; exact Hst|exact K].
+  Qed.
+
+  Lemma safe_walk_b t r : forall fuel it p l, CombAny r l ->
+    safe t (kwalk fuel it p) l (optQ (fun _ l' => CombAny r l')).
+  Proof.
+    induction fuel as [|fu IH]; intros it p l Hc; cbn [process_walk]; [exact I|].
+    destruct it as [|q]; [exact Hc|]. nb. destruct v as [n|p' comps|rs]; try exact I.
+    apply safe_dones_b with (r := r); [exact Hc|]. intros l' Hc'. nb. apply safe_obind.
+    eapply Conc.safe_weaken; [|apply safe_skip_b with (Pq := fun _ l'' => l'' = l'); reflexivity].
+    intros [it'|] l'' Hx; [|exact I]. cbn in Hx. subst l''. apply IH. exact Hc'.
+  Qed.
+
+  Lemma safe_fc_process_b t r fuel l : CombAny r l ->
+    safe t (kfc_process fuel) l (optQ (fun _ l' => CombAny r l')).
+  Proof.
+    intros Hc. unfold fc_process. apply safe_obind.
+    eapply Conc.safe_weaken; [|apply safe_skip_b with (Pq := fun _ l'' => l'' = l); reflexivity].
+    intros [it|] l' Hx; [|exact I]. cbn in Hx. subst l'. apply safe_walk_b. exact Hc.
+  Qed.
+
+  Lemma safe_process_passes_b t r fuel : forall n l, CombAny r l ->
+    safe t (kprocess_passes fuel n) l (optQ (fun _ l' => CombAny r l')).
+  Proof.
+    induction n as [|n IH]; intros l Hc; cbn [process_passes]; [exact Hc|].
+    apply safe_obind. eapply Conc.safe_weaken; [|apply safe_fc_process_b; exact Hc].
+    intros [u|] l' Hx; [|exact I]. cbn in Hx. apply IH. exact Hx.
+  Qed.
+  (** *** compact_list *)
+  Record Fin (r : nat) (l : sview) : Prop := {
+    f1 : w_my l = Some r; f2 : w_own l = OUnk; f3 : w_mynx l = None; f4 : w_wait l = true; f5 : w_done l = true;
+    f6 : w_hold l = true; f7 : w_deact l = None }.
+
+  Lemma Fin_forget r l : Fin r l -> St r true true true false (forget l).
+  Proof. intros [a1 a2 a3 a4 a5 a6 a7]. split; cbn; auto. Qed.
+  Lemma St_Fin r lk l : St r true true true lk l -> Fin r l.
+  Proof. intros [s1 s2 s3 s4 s5 s6 s7 s8 s9 s10 s11 s12]. split; auto. Qed.
+
+  Lemma safe_compact1_b t r age mask : forall fuel pp p l,
+    Fin r l -> w_tgt l = None -> w_pp l = Some pp -> w_cur l = tgt_of p -> w_nx l = None -> w_link l = false ->
+    safe t (kcompact1 fuel age mask pp p) l (optQ (fun _ l' => Fin r l' /\ w_tgt l' = None)).
+  Proof.
+    induction fuel as [|fu IH]; intros pp p l Hf Ht Hp Hc Hn Hlk; cbn [compact1]; [exact I|].
+    destruct p as [|q]; [split; assumption|]. cbn [tgt_of] in Hc.
+    pose proof Hf as [a1 a2 a3 a4 a5 a6 a7].
+    assert (Hpn : w_pp l <> None) by (rewrite Hp; discriminate).
+    (* pPrev = q; p = q->pNext.load() and go on *)
+    assert (Hadv : forall l1, Fin r l1 -> w_tgt l1 = None -> w_cur l1 = Some q ->
+              safe t (Act (@a_ld C Rs P q FNext) (fun n => kcompact1 fu age mask q (vn n))) l1
+                   (optQ (fun _ l' => Fin r l' /\ w_tgt l' = None))).
+    { intros l1 [b1 b2 b3 b4 b5 b6 b7] Ht1 Hc1. apply safe_ld_next_pp_b; [exact b6|right; exact Hc1|exact Ht1|].
+      intros v. cbn [vn]. apply IH; try (cbn; auto; fail). split; cbn; auto. }
+    refine (@safe_ld_state_cand_b _ t q _ l _ _ _).
+    - intros v Hv. cbn [vn]. destruct (Nat.eqb_spec v st_active) as [Ea|Ea].
+      + nb. destruct (Nat.ltb (vn v0 + mask) age); [|apply Hadv; assumption].
+        apply safe_ld_next_nx_b; [exact Hc|exact Hpn|]. intros v1. cbn [vn].
+        apply safe_cas_unlink_b with (r := q) (act := true); try (cbn; auto; fail); try discriminate.
+        * intros v2 Hv2. cbn [vn]. destruct (Nat.eqb_spec v2 (Datatypes.S q)); [contradiction|].
+          destruct v2 as [|r']; [exact I|]. cbn [tgt_of].
+          apply safe_ld_next_pp_b; try (cbn; auto; fail). intros v3. cbn [vn]. apply IH; try (cbn; auto; fail). split; cbn; auto.
+        * cbn [vn]. rewrite Nat.eqb_refl. apply safe_st_inactive_b; try (cbn; auto; fail). intros v2. apply IH; try (cbn; auto; fail). split; cbn; auto.
+      + destruct (Nat.eqb_spec v st_removed); [contradiction|]. apply Hadv; assumption.
+    - cbn [vn]. unfold st_removed, st_active. cbn [Nat.eqb].
+      apply safe_ld_next_nx_b; [cbn; exact Hc|cbn; exact Hpn|]. intros v1. cbn [vn].
+      apply safe_cas_unlink_b with (r := q) (act := false); try (cbn; auto; fail).
+      + intros v2 Hv2. cbn [vn]. destruct (Nat.eqb_spec v2 (Datatypes.S q)); [contradiction|]. split; [split; cbn; auto|cbn; exact Ht].
+      + cbn [vn]. rewrite Nat.eqb_refl. apply IH; try (cbn; auto; fail). split; cbn; auto.
+  Qed.
+  (** is_published: [true] = found in the list, [false] = the victim is not linked (and never will be) *)
+  Lemma safe_is_published_b t r vi : forall fuel p l,
+    Fin r l -> w_pp l = None ->
+    ((exists q, p = Datatypes.S q /\ w_cur l = Some q /\ w_tgt l = Some vi /\ w_cand l = Some vi) \/
+     (p = 0 /\ w_vic l = Some vi /\ w_tgt l = None /\ w_cur l = None)) ->
+    safe t (kis_published fuel vi p) l
+         (optQ (fun pub l' => Fin r l' /\ w_pp l' = None /\ (pub = false -> w_vic l' = Some vi /\ w_tgt l' = None /\ w_cur l' = None))).
+  Proof.
+    induction fuel as [|fu IH]; intros p l Hf Hp Hst; cbn [is_published]; [exact I|].
+    pose proof Hf as [a1 a2 a3 a4 a5 a6 a7].
+    destruct Hst as [(q & E & Hc & Ht & Hca)|(E & Hv & Ht & Hc)]; subst p.
+    - destruct (Nat.eqb_spec q vi) as [Eq|Eq].
+      + cbn. split; [exact Hf|]. split; [exact Hp|]. discriminate.
+      + apply safe_ld_next_pub_b with (vi := vi); auto.
+        * cbn [vn]. apply IH; [split; cbn; auto|cbn; exact Hp|]. right. cbn. auto.
+        * intros y. cbn [vn]. apply IH; [split; cbn; auto|cbn; exact Hp|]. left. exists y. cbn. auto.
+    - cbn. split; [exact Hf|]. split; [exact Hp|]. intros _. auto.
+  Qed.
+
+  (** loop 2 of compact_list *)
+  Lemma safe_compact2_b t r : forall fuel pp p l,
+    Fin r l -> w_pp l = None -> w_cur l = None -> w_tgt l = None ->
+    safe t (kcompact2 fuel pp p) l (optQ (fun _ l' => Fin r l')).
+  Proof.
+    induction fuel as [|fu IH]; intros pp p l Hf Hp Hc Ht; cbn [compact2]; [exact I|].
+    destruct p as [|q]; [exact Hf|]. pose proof Hf as [a1 a2 a3 a4 a5 a6 a7].
+    refine (@safe_ld_state_cand_b _ t q _ l _ _ _).
+    - intros v Hv. cbn [vn]. destruct (Nat.eqb_spec v st_removed); [contradiction|]. nb. apply IH; assumption.
+    - cbn [vn]. rewrite Nat.eqb_refl.
+      assert (Hf1 : Fin r (set_cand l (Some q))) by (split; cbn; auto).
+      apply safe_obind.
+      eapply Conc.safe_weaken with (Q := optQ (fun pub l' => Fin r l' /\ w_pp l' = None /\ (pub = false -> w_vic l' = Some q /\ w_tgt l' = None /\ w_cur l' = None))).
+      2:{ apply safe_ld_head_pub_b with (vi := q); try (cbn; auto; fail).
+          - cbn [vn]. apply safe_is_published_b with (r := r); [split; cbn; auto|cbn; exact Hp|]. right. cbn. auto.
+          - intros y. cbn [vn]. apply safe_is_published_b with (r := r); [split; cbn; auto|cbn; exact Hp|]. left. exists y. cbn. auto. }
+      intros [pub|] l' Hx; [|exact I]. cbn in Hx. destruct Hx as (Hf' & Hp' & Hpub). destruct pub.
+      + (* still published: keep it for the next compaction *)
+        apply safe_nbg with (l' := forget l'); [nbs|apply GhostOK_forget|]. intros v. cbn [vn].
+        destruct Hf' as [b1 b2 b3 b4 b5 b6 b7]. apply IH; cbn; auto. split; cbn; auto.
+      + destruct (Hpub eq_refl) as (Hv' & Ht' & Hc'). nb.
+        apply safe_cas_free_b with (vi := q); auto; [apply (f6 Hf')| |].
+        * intros v1 Hv1. cbn [vn]. destruct (Nat.eqb_spec v1 (Datatypes.S q)); [contradiction|].
+          destruct v1 as [|r']; [exact I|]. nb. apply IH; assumption.
+        * cbn [vn]. rewrite Nat.eqb_refl. destruct Hf' as [b1 b2 b3 b4 b5 b6 b7]. apply IH; cbn; auto. split; cbn; auto.
+  Qed.
+
+  Lemma safe_compact_list_b t r fuel age mask : forall tries l,
+    Fin r l -> w_tgt l = None ->
+    safe t (kcompact_list tries fuel age mask) l (optQ (fun _ l' => Fin r l')).
+  Proof.
+    induction tries as [|tr IH]; intros l Hf Ht; cbn [compact_list]; [exact I|].
+    pose proof Hf as [a1 a2 a3 a4 a5 a6 a7].
+    apply safe_ld_next_pp_b; [exact a6|left; reflexivity|exact Ht|]. intros v. cbn [vn].
+    apply safe_obind. eapply Conc.safe_weaken; [|apply safe_compact1_b with (r := r); try (cbn; auto; fail); split; cbn; auto].
+    intros [fin|] l' Hx; [|exact I]. cbn in Hx. destruct Hx as [Hf' Ht']. destruct fin; [|apply IH; assumption].
+    apply safe_nbg with (l' := forget l'); [nbs|apply GhostOK_forget|]. intros v0. cbn [vn].
+    destruct Hf' as [b1 b2 b3 b4 b5 b6 b7]. apply safe_compact2_b; cbn; auto. split; cbn; auto.
+  Qed.
+
+  Lemma safe_combining_b t r fuel mask npass batch d l : 1 <= r -> (batch = true \/ 1 <= npass) ->
+    St r true true d true l ->
+    safe t (kcombining fuel mask npass batch) l (optQ (fun _ l' => Fin r l')).
+  Proof.
+    intros Hr Hnp Hst. unfold combining. nb. apply safe_obind.
+    assert (Hend : forall l', St r true true true true l' ->
+              safe t (if Nat.eqb (Nat.land (Datatypes.S (vn v)) mask) 0 then kcompact_list fuel fuel (Datatypes.S (vn v)) mask
+                      else @ret C Rs P unit tt) l' (optQ (fun _ l'' => Fin r l''))).
+    { intros l' Hst'. destruct (Nat.eqb (Nat.land (Datatypes.S (vn v)) mask) 0).
+      - apply safe_compact_list_b; [eapply St_Fin; exact Hst'|apply (st_tgt Hst')].
+      - cbn. eapply St_Fin; exact Hst'. }
+    destruct batch.
+    - apply safe_obind. eapply Conc.safe_weaken; [|apply safe_process_passes_b with (r := r); exists d; exact Hst].
+      intros [u|] l' Hx; [|exact I]. cbn in Hx. destruct Hx as (d' & Hst').
+      apply safe_obind. eapply Conc.safe_weaken; [|eapply safe_cpass_top; eassumption].
+      intros [b|] l'' Hx; [|exact I]. cbn in Hx. cbn. apply Hend. exact Hx.
+    - eapply Conc.safe_weaken; [|apply safe_passes_b with (r := r) (d := d); auto; destruct Hnp as [E|E]; [discriminate|right; exact E]].
+      intros [u|] l' Hx; [|exact I]. cbn in Hx. apply Hend. exact Hx.
+  Qed.
+  (** *** the client side *)
+  Lemma nolost_name name : name <> "lost" -> nolost [EvCli name []].
+  Proof. intros H. constructor; [|constructor]. cbn. apply String.eqb_neq. exact H. Qed.
+
+  (** leaving the combiner role: Emit "unlock"; m_Mutex.unlock() *)
+  Lemma safe_unlock_seq_b A (x : A) t r l (Pq : A -> sview -> Prop) : Fin r l ->
+    (forall l', St r false true true false l' -> Pq x l') ->
+    safe t (Emit [EvCli "unlock" []] (Act (@a_unlock C Rs P) (fun _ => @ret C Rs P A x))) l (optQ Pq).
+  Proof.
+    intros Hf HQ. apply safe_emit_g with (l' := forget l); [apply nolost_name; discriminate|apply GhostOK_forget|].
+    pose proof (Fin_forget Hf) as [s1 s2 s3 s4 s5 s6 s7 s8 s9 s10 s11 s12].
+    apply safe_unlock_b; auto. intros v. unfold ret. cbn [Conc.safe optQ]. apply HQ.
+    split; [exact s1|exact s2|exact s3|exact s4|exact s5|reflexivity|exact s7|exact s8|exact s9|exact s10|exact s11|exact s12].
+  Qed.
+
+  Lemma safe_as_combiner_b t r fuel mask npass batch d l : 1 <= r -> (batch = true \/ 1 <= npass) ->
+    St r true true d false l ->
+    safe t (@as_combiner C Rs rs0 rs_enc capply P pinit pvisit true fuel mask npass batch r) l
+         (optQ (fun _ l' => St r false true true false l')).
+  Proof.
+    intros Hr Hnp Hst. unfold as_combiner.
+    apply safe_emit_g with (l' := l); [apply nolost_name; discriminate|apply GhostOK_refl|].
+    apply safe_obind. eapply Conc.safe_weaken; [|apply safe_republish_b; eassumption].
+    intros [u|] l1 Hx; [|exact I]. cbn in Hx. apply safe_obind.
+    eapply Conc.safe_weaken; [|eapply safe_combining_b; eassumption].
+    intros [u2|] l2 Hx2; [|exact I]. cbn in Hx2. apply safe_unlock_seq_b with (r := r); auto.
+  Qed.
+
+  Lemma safe_wait_b t r pfuel : forall fuel d l, 1 <= r -> St r false true d false l ->
+    safe t (kwait fuel pfuel r) l
+         (optQ (fun served l' => if served : bool then St r false true true false l' else exists d', St r true true d' false l')).
+  Proof.
+    induction fuel as [|fu IH]; intros d l Hr Hst; cbn [wait_for_combining]; [exact I|].
+    pose proof Hst as [s1 s2 s3 s4 s5 s6 s7 s8 s9 s10 s11 s12].
+    apply safe_ld_req_own_b with (r := r); auto.
+    - cbn [vn]. unfold req_Response. cbn. split; cbn; auto.
+    - intros v Hv1 Hv0. cbn [vn]. destruct (Nat.eqb_spec v req_Response); [contradiction|].
+      apply safe_obind. eapply Conc.safe_weaken; [|apply safe_republish_b; eassumption].
+      intros [u|] l1 Hx; [|exact I]. cbn in Hx. pose proof Hx as [q1 q2 q3 q4 q5 q6 q7 q8 q9 q10 q11 q12].
+      apply safe_xchg_b.
+      + cbn [vn Nat.eqb]. eapply IH; eauto.
+      + cbn [vn Nat.eqb].
+        apply safe_emit_g with (l' := set_hold l1 true); [apply nolost_name; discriminate|apply GhostOK_refl|].
+        apply safe_ld_req_own_b with (r := r); auto.
+        * cbn [vn]. unfold req_Response. cbn [Nat.eqb].
+          apply safe_unlock_seq_b with (r := r); [split; cbn; auto|]. intros l' Hl'. exact Hl'.
+        * intros v2 Hv21 Hv20. cbn [vn]. destruct (Nat.eqb_spec v2 req_Response); [contradiction|].
+          cbn. exists d. split; cbn; auto.
+  Qed.
+
+  Lemma safe_try_b t r fuel mask npass batch d l : 1 <= r -> (batch = true \/ 1 <= npass) ->
+    St r false true d false l ->
+    safe t (ktry fuel mask npass batch r) l (optQ (fun _ l' => St r false true true false l')).
+  Proof.
+    intros Hr Hnp Hst. unfold try_combining. pose proof Hst as [s1 s2 s3 s4 s5 s6 s7 s8 s9 s10 s11 s12].
+    apply safe_xchg_b.
+    - cbn [vn Nat.eqb]. apply safe_obind. eapply Conc.safe_weaken; [|eapply safe_wait_b; eassumption].
+      intros [served|] l1 Hx; [|exact I]. cbn in Hx. destruct served; [exact Hx|]. destruct Hx as (d' & Hst1).
+      apply safe_obind. eapply Conc.safe_weaken; [|apply safe_republish_b; eassumption].
+      intros [u|] l2 Hx2; [|exact I]. cbn in Hx2. apply safe_obind.
+      eapply Conc.safe_weaken; [|eapply safe_combining_b; eassumption].
+      intros [u2|] l3 Hx3; [|exact I]. cbn in Hx3. apply safe_unlock_seq_b with (r := r); auto.
+    - cbn [vn Nat.eqb]. eapply safe_as_combiner_b; eauto. split; cbn; auto.
+  Qed.
+  (** a thread between two operations: [my] = its record if it has one *)
+  Record Idl (my : option nat) (l : sview) : Prop := {
+    i1 : w_my l = my; i2 : w_own l = OUnk; i3 : w_mynx l = None; i4 : w_wait l = false; i5 : w_done l = false;
+    i6 : w_hold l = false; i7 : w_link l = false; i8 : w_cur l = None; i9 : w_tgt l = None; i10 : w_pp l = None;
+    i11 : w_nx l = None; i12 : w_deact l = None }.
+
+  Lemma safe_acquire_b t fuel my l : (forall r, my = Some r -> 1 <= r) -> Idl my l ->
+    safe t (kacquire fuel my) l (optQ (fun r l' => 1 <= r /\ St r false false false false l')).
+  Proof.
+    intros Hmy [a1 a2 a3 a4 a5 a6 a7 a8 a9 a10 a11 a12]. destruct my as [r|]; cbn [acquire_record].
+    - pose proof (Hmy r eq_refl) as Hr.
+      apply safe_ld_state_own_b; auto.
+      + cbn [vn]. rewrite Nat.eqb_refl. rewrite a6. cbn. split; [exact Hr|split; auto].
+      + intros v Hv. cbn [vn]. destruct (Nat.eqb_spec v st_active); [contradiction|].
+        apply safe_obind. eapply Conc.safe_weaken; [|apply safe_publish_b with (h := false) (w := false) (d := false); try (cbn; auto; fail); exact Hr].
+        intros [u|] l' Hx; [|exact I]. cbn in Hx. cbn. split; [exact Hr|exact Hx].
+    - apply safe_new_b; auto. intros r Hr. cbn [vn]. nb. apply safe_obind. apply safe_push_loop_a.
+      apply safe_obind. eapply Conc.safe_weaken; [|apply safe_publish_b with (h := false) (w := false) (d := false); try (cbn; auto; fail); exact Hr].
+      intros [u|] l' Hx; [|exact I]. cbn in Hx. cbn. split; [exact Hr|exact Hx].
+  Qed.
+
+  Lemma safe_krequest_b t fuel mask npass batch my op arg l :
+    2 <= op -> (batch = true \/ 1 <= npass) -> (forall r, my = Some r -> 1 <= r) -> Idl my l ->
+    safe t (krequest fuel mask npass batch t my op arg) l (optQ (fun r l' => 1 <= r /\ Idl (Some r) l')).
+  Proof.
+    intros Hop Hnp Hmy Hi. unfold request.
+    apply safe_emit_g with (l' := l); [constructor; [reflexivity|constructor]|apply GhostOK_refl|].
+    apply safe_obind. eapply Conc.safe_weaken; [|apply safe_acquire_b; eassumption].
+    intros [r|] l1 Hx; [|exact I]. cbn in Hx. destruct Hx as [Hr Hst]. pose proof Hst as [s1 s2 s3 s4 s5 s6 s7 s8 s9 s10 s11 s12].
+    apply safe_request_b; [exact s1|exact Hop|]. intros v.
+    apply safe_obind. eapply Conc.safe_weaken; [|apply safe_try_b with (r := r) (d := false); try assumption; split; cbn; auto].
+    intros [u|] l2 Hx; [|exact I]. cbn in Hx. pose proof Hx as [q1 q2 q3 q4 q5 q6 q7 q8 q9 q10 q11 q12].
+    apply safe_release_b with (r := r); auto. intros v2.
+    apply safe_emit_g with (l' := set_done (set_wait l2 false) false); [|apply GhostOK_refl|].
+    { constructor; [|constructor]. destruct v2; reflexivity. }
+    cbn. split; [exact Hr|split; cbn; auto].
+  Qed.
+
+  Lemma safe_kexit_b t my l : Idl my l -> safe t (kexit my) l (optQ (fun _ l' => Idl None l')).
+  Proof.
+    intros [a1 a2 a3 a4 a5 a6 a7 a8 a9 a10 a11 a12]. destruct my as [r|]; cbn [thread_exit].
+    - apply safe_exit_b; auto. intros v. cbn. split; cbn; auto.
+    - cbn. split; auto.
+  Qed.
+
+  Definition cop_ge2 (o : cop) : Prop := match o with CReq batch op _ => 2 <= op | CExit => True end.
+  Definition cop_pass (npass : nat) (o : cop) : Prop := match o with CReq batch _ _ => batch = true \/ 1 <= npass | CExit => True end.
+
+  Lemma safe_run_ops_b t fuel mask npass : forall os my l,
+    Forall cop_ge2 os -> Forall (cop_pass npass) os -> (forall r, my = Some r -> 1 <= r) -> Idl my l ->
+    safe t (krun_ops fuel mask npass t my os) l (optQ (fun _ _ => True)).
+  Proof.
+    induction os as [|o os IH]; intros my l H2 Hp Hmy Hi; cbn [run_ops].
+    - eapply Conc.safe_weaken; [|apply safe_kexit_b; exact Hi]. intros [u|] l' Hx; exact I.
+    - inversion H2 as [|? ? Ho2 H2']; subst. inversion Hp as [|? ? Hop Hp']; subst. destruct o as [batch op arg|].
+      + apply safe_obind. eapply Conc.safe_weaken; [|apply safe_krequest_b; eassumption].
+        intros [r|] l' Hx; [|exact I]. cbn in Hx. destruct Hx as [Hr Hi']. apply IH; auto. intros r0 E. inversion E; subst. exact Hr.
+      + apply safe_obind. eapply Conc.safe_weaken; [|apply safe_kexit_b; exact Hi].
+        intros [u|] l' Hx; [|exact I]. cbn in Hx. apply IH; auto. discriminate.
+  Qed.
+
+  Lemma safe_kthread_b t fuel mask npass os l :
+    Forall cop_ge2 os -> Forall (cop_pass npass) os -> Idl None l ->
+    safe t (kthread_prog fuel mask npass t os) l (@Conc.QTrue sview).
+  Proof.
+    intros H2 Hp Hi. unfold thread_prog. nb. apply Conc.safe_bind.
+    eapply Conc.safe_weaken; [|apply safe_run_ops_b; eauto; discriminate].
+    intros [u|] l' _; [exact I|]. apply safe_emit_g with (l' := l'); [apply nolost_name; discriminate|apply GhostOK_refl|exact I].
+  Qed.
+
+  (** ** every reachable configuration *)
+  Definition sv0 : sview := mkSV None OUnk None false false false false None None None None None None None.
+  Definition aux0 : aux := mkSA [] (fun _ => sv0).
+
+  Notation kthread_progs := (@thread_progs C Rs rs0 rs_enc capply P pinit pvisit true).
+  Notation kinit_cfg := (@init_cfg C Rs rs0 rs_enc capply P pinit pvisit true).
+
+  Lemma nth_error_thread_progs fuel mask npass : forall ths t0 i p,
+    nth_error (kthread_progs fuel mask npass t0 ths) i = Some p ->
+    exists os, nth_error ths i = Some os /\ p = kthread_prog fuel mask npass (t0 + i) os.
+  Proof.
+    induction ths as [|os ths IH]; intros t0 i p H; cbn [thread_progs] in H; [destruct i; discriminate|].
+    destruct i as [|i]; cbn in H.
+    - inversion H; subst. exists os. split; [reflexivity|]. rewrite Nat.add_0_r. reflexivity.
+    - destruct (IH _ _ _ H) as (os' & A & B). exists os'. split; [exact A|]. rewrite B. f_equal. lia.
+  Qed.
+
+  Definition progs_ok (npass : nat) (ths : list (list cop)) : Prop :=
+    Forall (Forall cop_ge2) ths /\ Forall (Forall (cop_pass npass)) ths.
+
+  Lemma init_ok_b fuel mask npass c0 ths : progs_ok npass ths ->
+    Conc.cfg_ok view Inv (kinit_cfg fuel mask npass c0 ths).
+  Proof.
+    intros [H2 Hp]. exists aux0. split.
+    - apply Inv_intro; [reflexivity| |].
+      + split.
+        * intros _ u. reflexivity.
+        * intros u u' H. cbn in H. discriminate.
+        * intros u u' r H. cbn in H. discriminate.
+        * intros q [E|[]]. subst q. reflexivity.
+        * constructor; [intros []|constructor].
+        * intros r [].
+        * intros r H. unfold stt in H; cbn in H. discriminate.
+        * intros r H. unfold stt in H; cbn in H. discriminate.
+        * intros r _. unfold stt; cbn. discriminate.
+        * split; [unfold stt; cbn; discriminate|cbn; lia].
+        * intros r. unfold stt; cbn. lia.
+      + intros u. cbn. split; cbn; try discriminate; auto.
+    - intros t p Hpn. cbn [kinit_cfg Conc.threads] in Hpn. destruct (nth_error_thread_progs _ _ _ _ _ _ Hpn) as (os & A & ->).
+      cbn [Nat.add]. apply safe_kthread_b.
+      + eapply Forall_forall in H2; [exact H2|]. eapply nth_error_In; exact A.
+      + eapply Forall_forall in Hp; [exact Hp|]. eapply nth_error_In; exact A.
+      + split; reflexivity.
+  Qed.
+
+  (** Part B: on the current code (loop 2 of compact_list checks is_published), for every schedule, any number of
+      threads, any programs whose request words are >= req_Operation and which use either batch_combine or a
+      combine pass count >= 1: release_record never meets an unanswered request. *)
+  Theorem fc_never_lost fuel mask npass c0 ths c :
+    progs_ok npass ths -> Conc.reach (kinit_cfg fuel mask npass c0 ths) c -> has_lost (Conc.trace c) = false.
+  Proof.
+    intros Hok Hr. destruct (Conc.reach_Inv (init_ok_b fuel mask c0 Hok) Hr) as (a & Hl & _). exact Hl.
   Qed.
 End Shape.
